@@ -236,6 +236,29 @@ func isolationMain(args []string) error {
 					return nil
 				})
 				hi := atomic.LoadInt64(&committed) + 1
+				// what a read transaction loaded is the caller's: it stays what it was after the transaction ended and the writer went on
+				if err == nil && round%40 == 3 && len(obs) > 0 && obs[0] > 0 {
+					var kept *schema.Person
+					_ = env.Db.View(func(tx *bbolt.Tx) error {
+						kept, _, _ = env.S.People.FindById(tx, "p1")
+						return nil
+					})
+					if kept != nil {
+						was := verOf(kept.Name)
+						name := strings.Clone(kept.Name)
+						for w := atomic.LoadInt64(&committed); atomic.LoadInt64(&committed) < w+4; {
+							select {
+							case <-stop:
+								w = -100
+							default:
+								runtime.Gosched()
+							}
+						}
+						if kept.Name != name || verOf(kept.Name) != was || len(kept.Roles) != 1 || verOf(kept.Roles[0]) != was {
+							err = fmt.Errorf("an entity loaded in a read transaction changed after the transaction ended: name %q was %q, roles %q", kept.Name, name, kept.Roles)
+						}
+					}
+				}
 				mu.Lock()
 				if err != nil {
 					failures = append(failures, err.Error())
